@@ -636,7 +636,7 @@ func pureInvoke(cc *ssa.CallCommon) bool {
 	switch cc.Method.Name() {
 	case "Error", "String", "GetSigners", "GetMsgs", "ValidateBasic", "GetAddress", "GetName", "Logger", "Bytes":
 		return true
-	case "GetOperator", "TokensFromShares", "TokensFromSharesTruncated", "MaxValidators", "GetConsensusPower", "IsBonded", "IsJailed", "GetTokens", "GetBondedTokens", "GetStatus", "GetDelegatorShares":
+	case "GetOperator", "TokensFromShares", "TokensFromSharesTruncated", "MaxValidators", "GetConsensusPower", "IsBonded", "IsJailed", "GetTokens", "GetBondedTokens", "GetStatus", "GetDelegatorShares", "TotalBondedTokens":
 		// ValidatorI / ValidatorSet of the staking module: reads
 		return strings.Contains(typeKeyFull(cc.Value.Type()), "cosmos-sdk/x/staking/types.")
 	case "MustMarshal", "Marshal", "MustMarshalJSON", "MarshalJSON":
